@@ -192,6 +192,30 @@ func (fr *Frame) candidates(li *loopInfo) []autoInv {
 			continue
 		}
 		cs = append(cs, autoInv{"frame " + n, func(fr *Frame, st *State, _ map[*ssa.Phi]Val, entry *State) Term {
+			var excl []Term
+			if !fr.inline && fr.contract != nil && fr.contract.HasMod {
+				env := fr.ex.newEnv(fr.entry, fr.entry, fr)
+				env.pkg = contractPkg(fr.contract.Func)
+				fr.bindTopVars(env)
+				if fr.contract.ThisAlias && len(fr.fn.Params) > 0 {
+					env.vars["this"] = fr.vals[fr.fn.Params[0]]
+				}
+				func() {
+					defer func() { recover() }()
+					for _, m := range fr.contract.Modifies {
+						if m.Whole || m.Star {
+							continue
+						}
+						for _, tl := range env.evalLocs(m.E) {
+							for _, th := range tl.heaps {
+								if th.Name == hk.Name && len(tl.idx) > 0 {
+									excl = append(excl, tl.idx[0])
+								}
+							}
+						}
+					}
+				}()
+			}
 			hh := fr.ex.heaps[hk.Name]
 			if hh == nil {
 				// register under the same name
@@ -199,7 +223,11 @@ func (fr *Frame) candidates(li *loopInfo) []autoInv {
 				hh = fr.ex.heaps[hk.Name]
 			}
 			r := Term{"lf", SInt}
-			return Forall([]string{"lf"}, Implies(And(Le(Int(1), r), Le(r, fr.entry.alloc)), Eq(Select(st.get(hh), r), Select(entry.get(hh), r))))
+			conds := []Term{Le(Int(1), r), Le(r, fr.entry.alloc)}
+			for _, x := range excl {
+				conds = append(conds, Ne(r, x))
+			}
+			return Forall([]string{"lf"}, Implies(And(conds...), Eq(Select(st.get(hh), r), Select(entry.get(hh), r))))
 		}})
 	}
 	// (g) fields of objects named by pointers defined outside the loop keep their value
@@ -284,6 +312,16 @@ func (fr *Frame) enterLoop(li *loopInfo, in *State) *State {
 		} else if ex.houdini && !fr.inline {
 			cands = all
 		}
+		if li.spec != nil {
+			// bounds come from the declared invariants; keep only the frame-like candidates
+			var fc []autoInv
+			for _, c := range cands {
+				if strings.HasPrefix(c.label, "frame ") || strings.HasPrefix(c.label, "keep ") || strings.HasSuffix(c.label, "fresh-or-nil") || strings.HasPrefix(c.label, "paraminv ") || strings.HasSuffix(c.label, " unchanged") {
+					fc = append(fc, c)
+				}
+			}
+			cands = fc
+		}
 	}
 	li.candsUsed = cands
 	// establish
@@ -294,7 +332,7 @@ func (fr *Frame) enterLoop(li *loopInfo, in *State) *State {
 			if lbl == "" {
 				lbl = fmt.Sprintf("%d", i)
 			}
-			fr.oblige(in, "inv-entry", fmt.Sprintf("loop%d/%s", li.ordinal, lbl), fr.safeEvalBool(env, c), li.header.Instrs[0].Pos())
+			fr.obligeClause(in, "inv-entry", fmt.Sprintf("loop%d/%s", li.ordinal, lbl), env, c.forPhase("entry"), nil)
 		}
 	}
 	for _, c := range cands {
@@ -319,6 +357,7 @@ func (fr *Frame) enterLoop(li *loopInfo, in *State) *State {
 		fresh[p] = v
 	}
 	li.phiFresh = fresh
+	li.headSt = st
 	// assume
 	if li.spec != nil {
 		env := fr.loopEnv(li, st, fresh)
@@ -365,12 +404,13 @@ func (fr *Frame) closeLoop(li *loopInfo, from *ssa.BasicBlock, cur *State) {
 	}
 	if li.spec != nil {
 		env := fr.loopEnv(li, st, over)
+		env.headEnv = fr.loopEnv(li, li.headSt, li.phiFresh)
 		for i, c := range li.spec.Invariants {
 			lbl := c.Label
 			if lbl == "" {
 				lbl = fmt.Sprintf("%d", i)
 			}
-			fr.oblige(st, "inv-keep", fmt.Sprintf("loop%d/%s", li.ordinal, lbl), fr.safeEvalBool(env, c), from.Instrs[len(from.Instrs)-1].Pos())
+			fr.obligeClause(st, "inv-keep", fmt.Sprintf("loop%d/%s", li.ordinal, lbl), env, c.forPhase("keep"), nil)
 		}
 		for i, d := range li.spec.Decreases {
 			now := fr.loopEnv(li, st, over).evalInt(d.E)
@@ -383,3 +423,80 @@ func (fr *Frame) closeLoop(li *loopInfo, from *ssa.BasicBlock, cur *State) {
 }
 
 var _ = types.Typ
+
+
+// exitLoop proves the declared invariants at an exit edge b->s that leaves the
+// loop from the middle of its body, for the variable values at that point.
+func (fr *Frame) exitLoop(li *loopInfo, b, s *ssa.BasicBlock, cur *State) {
+	st := cur.clone()
+	st.reach = fr.edgeCond(b, s, cur)
+	env := fr.ex.newEnv(st, fr.entry, fr)
+	c := fr.ex.P.contractFor(fr.fn)
+	if c != nil {
+		env.pkg = contractPkg(c.Func)
+	} else if pk := fnPkg(fr.fn); pk != nil {
+		env.pkg = shortPkg(pk.Path())
+	}
+	fr.bindTopVars(env)
+	env.locals = func(name string) (Val, bool) {
+		fr.includeOwnBlock = true
+		defer func() { fr.includeOwnBlock = false }()
+		return fr.localByNameAt(name, b, li, st)
+	}
+	env.headEnv = fr.loopEnv(li, li.headSt, li.phiFresh)
+	for i, cl := range li.spec.ExitInv {
+		lbl := cl.Label
+		if lbl == "" {
+			lbl = fmt.Sprintf("%d", i)
+		}
+		fr.obligeClause(st, "inv-exit", fmt.Sprintf("loop%d/%s", li.ordinal, lbl), env, cl.forPhase("keep"), nil)
+	}
+	// the facts hold on this edge; make them available to the successor
+	// (obligeClause already asserted them under the edge condition)
+}
+
+// localByNameAt resolves a source variable at the end of block b inside loop li:
+// the latest definition in b or its dominators; header phis stand for the
+// value at the head of this iteration.
+func (fr *Frame) localByNameAt(name string, b *ssa.BasicBlock, li *loopInfo, st *State) (Val, bool) {
+	// latest DebugRef in blocks dominating b (including b) that lie inside the loop body
+	var best ssa.Value
+	var bestAddr bool
+	bestDepth := -1
+	for _, blk := range fr.fn.Blocks {
+		if !blk.Dominates(b) {
+			continue
+		}
+		depth := 0
+		for d := blk; d != nil; d = d.Idom() {
+			depth++
+		}
+		for _, in := range blk.Instrs {
+			dr, ok := in.(*ssa.DebugRef)
+			if !ok || dr.Object() == nil || dr.Object().Name() != name {
+				continue
+			}
+			if _, isVar := dr.Object().(*types.Var); !isVar {
+				continue
+			}
+			if depth >= bestDepth {
+				best, bestAddr, bestDepth = dr.X, dr.IsAddr, depth
+			}
+		}
+	}
+	if best == nil {
+		return fr.localByName(name, li.header, st, li.phiFresh)
+	}
+	v, ok := fr.vals[best]
+	if !ok {
+		if c, isC := best.(*ssa.Const); isC {
+			v = fr.ex.constVal(c, st)
+		} else {
+			return Val{}, false
+		}
+	}
+	if bestAddr {
+		return fr.ex.load(st, fr.ex.ptrLoc(v), best.Type().(*types.Pointer).Elem()), true
+	}
+	return v, true
+}
